@@ -472,11 +472,17 @@ pub fn lib_canonical(wire: &Wire, s3: bool, fold: bool, signed: &[String]) -> Re
             url_encode_form: fold,
         };
         match CanonicalRequest::from_request_parts(parts, Bytes::from(body), opts) {
-            Ok((cr, _, _)) => Ok(LibCanon {
-                path: cr.canonical_path().to_string(),
-                query: cr.canonical_query_string(),
-                creq: cr.canonical_request(&signed),
-            }),
+            Ok((cr, _, _)) => {
+                // the signed-header list as the library itself reads it from the request (so that
+                // its splitting, unescaping and ordering of the list are part of what is compared);
+                // when it refuses to produce one, the list as the reference reads it
+                let own = cr.get_auth_parameters(&scratchstack_aws_signature::NO_ADDITIONAL_SIGNED_HEADERS).map(|p| p.signed_headers).unwrap_or(signed);
+                Ok(LibCanon {
+                    path: cr.canonical_path().to_string(),
+                    query: cr.canonical_query_string(),
+                    creq: cr.canonical_request(&own),
+                })
+            }
             Err(e) => Err(libi::err_info(Box::new(e))),
         }
     }));
